@@ -30,6 +30,9 @@ func (c *Ctx) bpfUnits() []*cfront.TU {
 			continue
 		}
 		c.tus = append(c.tus, tu)
+		for _, l := range tu.RenameLog {
+			c.R.List("c_renames_undone", l)
+		}
 		c.R.Count("c_units_parsed", 1)
 		c.R.List("c_units", f)
 	}
